@@ -2,7 +2,7 @@
 use crate::gen::rel::{self, Item, Layout, Op, Rel, RelField, RelOpts};
 use crate::props::c10::{lossless_entries, same_entries, vc_of};
 use crate::tape::Tape;
-use crate::{ensure, ensure_eq, fail, Budget, CheckResult, Ctx, Failure, PropImpl, Space, Tier};
+use crate::{ensure, ensure_eq, Budget, CheckResult, Ctx, Failure, PropImpl, Space, Tier};
 use debian_control::lossless::relations as ll;
 use debian_control::relations::BuildProfile;
 use std::str::FromStr;
@@ -44,6 +44,8 @@ pub struct Case {
     pub liberal: bool,
     /// the history starts from the live object returned by Relations::wrap_and_sort() on the parsed start field
     pub normalised_first: bool,
+    /// the start field is assembled from entry objects (Relations::from(Vec<Entry>)) rather than parsed
+    pub assembled: Option<How>,
     pub ops: Vec<EOp>,
 }
 
@@ -271,7 +273,13 @@ pub fn run(case: &Case) -> CheckResult {
                 }
             }
             ensure!(errs.is_empty(), "start-parses", "well-formed start field {:?} has errors {:?}", text, errs);
-            if case.normalised_first {
+            if let Some(how) = case.assembled {
+                let entries = f.entries().iter().map(|e| build_entry(e, how)).collect::<Result<Vec<_>, _>>()?;
+                let a = ll::Relations::from(entries);
+                let got = lossless_entries(&a)?;
+                ensure!(same_entries(&got, &f.entries()), "assembled-start", "Relations::from(entries) prints {:?}, live accessors give {:?}, the entries were {:?}", a.to_string(), got, f.entries());
+                (a, f.entries(), vec![])
+            } else if case.normalised_first {
                 // the start model is what the live normalised field reports (that normalising keeps the meaning is C13's business)
                 let w = r.wrap_and_sort();
                 let m = lossless_entries(&w)?;
@@ -458,7 +466,7 @@ impl PropImpl for C11 {
          an empty entry/substvar/newline. Distinct by hash of (start text, history).".into()
     }
     fn expected_labels(&self) -> Vec<&'static str> {
-        vec!["op:push", "op:insert", "op:replace", "op:remove_entry", "op:Entry::remove", "op:Entry::push", "op:Entry::replace", "op:Entry::remove_relation", "op:Relation::remove", "op:set_version(Some)", "op:set_version(None)", "op:drop_constraint", "op:set_archqual", "op:set_architectures", "op:add_profile", "operand:parsed", "operand:constructed", "operand:builder", "operand:parsed-with-surrounding-whitespace", "start:empty-field", "start:has-substvar", "start:has-empty-entry", "start:has-newline", "start:white-space-before-archqual", "start:result-of-wrap-and-sort"]
+        vec!["op:push", "op:insert", "op:replace", "op:remove_entry", "op:Entry::remove", "op:Entry::push", "op:Entry::replace", "op:Entry::remove_relation", "op:Relation::remove", "op:set_version(Some)", "op:set_version(None)", "op:drop_constraint", "op:set_archqual", "op:set_architectures", "op:add_profile", "operand:parsed", "operand:constructed", "operand:builder", "operand:parsed-with-surrounding-whitespace", "start:empty-field", "start:has-substvar", "start:has-empty-entry", "start:has-newline", "start:white-space-before-archqual", "start:result-of-wrap-and-sort", "start:assembled-from-entry-objects"]
     }
     fn budget(&self, tier: Tier) -> Budget {
         Budget { cases_per_lane: if tier == Tier::Quick { 30000 } else { 120000 }, tape_max: 600, cpu_s: 10 }
@@ -490,7 +498,7 @@ impl PropImpl for C11 {
             apply_model(&mut m, &avail[k]);
             ops.push(avail[k].clone());
         }
-        Case { start: if li == 0 { None } else { Some((f, text.to_string(), Layout::L1)) }, ops, liberal: false, normalised_first: false }
+        Case { start: if li == 0 { None } else { Some((f, text.to_string(), Layout::L1)) }, ops, liberal: false, normalised_first: false, assembled: None }
     }
     fn decode(&self, _ctx: &mut Ctx, t: &mut Tape) -> Case {
         let start = if t.chance(1, 5) {
@@ -525,6 +533,10 @@ impl PropImpl for C11 {
             s => s,
         };
         let normalised_first = !liberal && start.is_some() && t.chance(1, 8);
+        let assembled = match &start {
+            Some((f, _, _)) if !liberal && !normalised_first && !f.has_substvar() && !f.has_empty() && t.chance(1, 8) => Some(*t.pick(&[How::Construct, How::Builder, How::Parse, How::ParseWs])),
+            _ => None,
+        };
         let mut m = start.as_ref().map(|s| s.0.entries()).unwrap_or_default();
         if normalised_first {
             // indices of the history refer to the normalised field: sorted entries (by the reference order used in C13's
@@ -537,7 +549,7 @@ impl PropImpl for C11 {
             apply_model(&mut m, &op);
             ops.push(op);
         }
-        Case { start, ops, liberal, normalised_first }
+        Case { start, ops, liberal, normalised_first, assembled }
     }
     fn classify(&self, ctx: &mut Ctx, case: &Case) {
         let st = case.start.as_ref().map(|s| s.1.clone()).unwrap_or_default();
@@ -549,6 +561,7 @@ impl PropImpl for C11 {
         ctx.label_if(st.contains('\n'), "start:has-newline");
         ctx.label_if(case.liberal, "start:white-space-before-archqual");
         ctx.label_if(case.normalised_first, "start:result-of-wrap-and-sort");
+        ctx.label_if(case.assembled.is_some(), "start:assembled-from-entry-objects");
         let mut m = f.entries();
         let mut changing = 0;
         let mut edge = false;
@@ -596,6 +609,6 @@ impl PropImpl for C11 {
         run(case)
     }
     fn render(&self, case: &Case) -> String {
-        format!("start {:?}\nhistory {:?}", case.start.as_ref().map(|s| s.1.as_str()), case.ops)
+        format!("start {:?}{}{}\nhistory {:?}", case.start.as_ref().map(|s| s.1.as_str()), if case.normalised_first { " (then wrap_and_sort)" } else { "" }, case.assembled.map(|h| format!(" (assembled with Relations::from from entries made by {:?})", h)).unwrap_or_default(), case.ops)
     }
 }
